@@ -71,8 +71,6 @@ NextG == \E cmd \in 0..2, gt \in 0..3, nb \in 0..2, na \in 0..2, tag \in Tags :
                                           (<<"output", "setfield", "note6">>)[1 + ((i + j) % 3)], tag + i + 2 * j)], tag + 7 * i)] IN
             /\ c' = <<cmd, gt, nb, na, tag>>
             /\ Emit("G", GroupModEl("m", cmd, gt, bs, tag), bs)
-SimpleKinds == {"echoreq", "echorep", "featreq", "confreq", "barrier", "hello", "setconfig", "portmod", "setctrlid", "tlvreq"}
-MpKinds == {"desc", "flow", "aggregate", "table", "portdesc"}
 NextS == \E tag \in Tags :
            \/ \E kind \in SimpleKinds : c' = <<kind, tag>> /\ Emit("S", SimpleEl("m", kind, tag), <<>>)
            \/ \E kind \in MpKinds, nf \in 0..2 :
